@@ -71,6 +71,7 @@ def gen_case(prop: str, seed: int, tier: str, index: int, classes: List[str]) ->
         ph = {"op": "phase", "t": round(t, 3), "kind": kind, "dur": dur}
         if kind == "lossy":
             ph["p"] = rng.choice([0.1, 0.3, 0.6])
+            ph["send_error_p"] = rng.choice([0.0, 0.0, 0.05, 0.2])
         if kind == "oneway":
             ph["dir"] = rng.choice(["c2s", "s2c"])
         plan.append(ph)
@@ -437,9 +438,11 @@ async def run_phase(world: WorldA, model, op: Dict[str, Any], res: RunResult, bl
         await asyncio.sleep(op["dur"])
     elif kind == "lossy":
         world.net.cfg["loss"] = op["p"]
+        world.net.cfg["send_error_p"] = op.get("send_error_p", 0.0)
         res.fault("phase_lossy")
         await asyncio.sleep(op["dur"])
         world.net.cfg["loss"] = 0.0
+        world.net.cfg["send_error_p"] = 0.0
     elif kind in ("blackout", "oneway"):
         d = "both" if kind == "blackout" else op["dir"]
         w = (t0, t0 + op["dur"], d)
